@@ -9,7 +9,10 @@
 (* lose the last chunk; gather(workers) ; await producer ; commit.         *)
 (* One action = one critical section / one run-to-next-await.              *)
 (* Mutants: doneOnly (worker loop tests only producer.done()),             *)
-(* firstCompleted (commit after the first worker has finished).            *)
+(* firstCompleted (commit after the first worker has finished),            *)
+(* threadDone (the loop test asks the THREAD-side future of the producer:  *)
+(* `queue.empty()` and `.done()` are then two looks at state that another  *)
+(* thread changes in between - the seeded change C09_agent4).              *)
 (***************************************************************************)
 EXTENDS Naturals, Sequences, FiniteSets, TLC
 CONSTANTS K, N, QCap, MaxFaults, Mutant
@@ -36,12 +39,18 @@ LoopSeesDone == /\ prod = "returned" /\ ~loopDone /\ loopDone' = TRUE
                 /\ UNCHANGED <<q, produced, prod, abort, w, free, inflight, stored, done, gather, committed, faults>>
 \* ---- worker coroutines (each action = one run-to-next-await)
 Set(i, pc, k) == w' = [w EXCEPT ![i] = [pc |-> pc, k |-> k]]
-Test(i) == /\ w[i].pc = "test"
+Test(i) == /\ w[i].pc = "test" /\ Mutant # "threadDone"
            /\ LET cont == IF Mutant = "doneOnly" THEN ~loopDone ELSE (q # <<>> \/ ~loopDone) IN
               IF ~cont THEN Set(i, "exit", 0) /\ q' = q
               ELSE IF q = <<>> THEN Set(i, "test", 0) /\ q' = q        \* sleep(timeout); loop
               ELSE Set(i, "wantSlotE", Head(q)) /\ q' = Tail(q)
            /\ UNCHANGED <<produced, prod, loopDone, abort, free, inflight, stored, done, gather, committed, faults>>
+\* mutant threadDone: first look (queue), second look (thread-side state of the producer) - the producer runs in between
+TestQ(i) == /\ w[i].pc = "test" /\ Mutant = "threadDone"
+            /\ IF q = <<>> THEN Set(i, "test2", 0) /\ q' = q ELSE Set(i, "wantSlotE", Head(q)) /\ q' = Tail(q)
+            /\ UNCHANGED <<produced, prod, loopDone, abort, free, inflight, stored, done, gather, committed, faults>>
+TestP(i) == /\ w[i].pc = "test2" /\ Set(i, IF prod = "returned" THEN "exit" ELSE "test", 0)
+            /\ UNCHANGED <<q, produced, prod, loopDone, abort, free, inflight, stored, done, gather, committed, faults>>
 SlotE(i) == /\ w[i].pc = "wantSlotE" /\ free > 0 /\ free' = free - 1 /\ inflight' = inflight + 1 /\ Set(i, "exists", w[i].k)
             /\ UNCHANGED <<q, produced, prod, loopDone, abort, stored, done, gather, committed, faults>>
 ExistsDone(i) == /\ w[i].pc = "exists" /\ free' = free + 1 /\ inflight' = inflight - 1
@@ -69,11 +78,11 @@ AwaitProd == /\ gather \in {"awaitProd", "raising"} /\ loopDone
 Commit == /\ gather = "commit" /\ free > 0 /\ committed' = TRUE /\ gather' = "finished"
           /\ UNCHANGED <<q, produced, prod, loopDone, abort, w, free, inflight, stored, done, faults>>
 Next == Put \/ ProdReturn \/ LoopSeesDone \/ GatherOk \/ GatherRaise \/ AwaitProd \/ Commit
-        \/ \E i \in Workers : Test(i) \/ SlotE(i) \/ ExistsDone(i) \/ SlotU(i) \/ UploadDone(i) \/ UploadFail(i)
+        \/ \E i \in Workers : Test(i) \/ TestQ(i) \/ TestP(i) \/ SlotE(i) \/ ExistsDone(i) \/ SlotU(i) \/ UploadDone(i) \/ UploadFail(i)
 Spec == Init /\ [][Next]_vars /\ WF_vars(Next)
 Fair == /\ WF_vars(Put) /\ WF_vars(ProdReturn) /\ WF_vars(LoopSeesDone) /\ WF_vars(GatherOk) /\ WF_vars(GatherRaise)
         /\ WF_vars(AwaitProd) /\ WF_vars(Commit)
-        /\ \A i \in Workers : WF_vars(Test(i)) /\ WF_vars(SlotE(i)) /\ WF_vars(ExistsDone(i) \/ UploadDone(i) \/ UploadFail(i)) /\ WF_vars(SlotU(i))
+        /\ \A i \in Workers : WF_vars(Test(i)) /\ WF_vars(TestQ(i)) /\ WF_vars(TestP(i)) /\ WF_vars(SlotE(i)) /\ WF_vars(ExistsDone(i) \/ UploadDone(i) \/ UploadFail(i)) /\ WF_vars(SlotU(i))
 FairSpec == Init /\ [][Next]_vars /\ Fair
 InFlightBound == inflight <= N /\ free + inflight = N
 CommitComplete == committed => (done = 1..K /\ \A k \in 1..K : Loc[k] \in stored)      \* C03 / C09: nothing lost, nothing outstanding
